@@ -157,7 +157,7 @@ func runC05(c *Cfg) {
 	nb := c.Pick(2000, 150000)
 	parallel(c, nb, func(i int) {
 		rg := c.Rng("c05", i)
-		base := scen.GenFlowScenario(rg, scen.GenOpts{MaxNodes: 8, MaxActions: 4, MaxDepth: 4, Failures: true, MaxVisits: 3, Batch: true, CtxAwareErrs: true})
+		base := scen.GenFlowScenario(rg, scen.GenOpts{MaxNodes: 8, MaxActions: 4, MaxDepth: 4, Failures: true, MaxVisits: 3, Batch: true, CtxAwareErrs: true, MoreErrKinds: true})
 		base.Runs = 1
 		base.Rewire = nil
 		if i%6 == 0 {
